@@ -98,7 +98,7 @@ impl Sched {
 fn install_hook() {
     samyama::verif_hooks::set_callback(Some(Arc::new(|name: &str| {
         if let Some(i) = TID.with(|t| t.get()) {
-            if name.starts_with("pm.create_") {
+            if name.starts_with("pm.create_") || name.starts_with("pm.delete_") {
                 let s = SCHED.lock().unwrap().clone();
                 if let Some(s) = s {
                     s.park(i, name);
@@ -113,6 +113,22 @@ fn install_hook() {
 enum Kind {
     Node,
     Edge,
+}
+/// what a writer does: create the entity with this id, or delete it
+#[derive(Clone, Copy, Debug, PartialEq)]
+enum W {
+    C(u64),
+    D(u64),
+}
+impl W {
+    fn id(&self) -> u64 {
+        match self {
+            W::C(i) | W::D(i) => *i,
+        }
+    }
+    fn is_create(&self) -> bool {
+        matches!(self, W::C(_))
+    }
 }
 #[derive(Clone, Copy, Debug, PartialEq)]
 enum Res {
@@ -148,6 +164,16 @@ fn scan_ids(pm: &PersistenceManager, tenant: &str, kind: Kind) -> Vec<u64> {
     }
 }
 
+fn perform(pm: &PersistenceManager, tenant: &str, kind: Kind, w: W) -> Result<(), PersistenceError> {
+    match w {
+        W::C(id) => create(pm, tenant, kind, id),
+        W::D(id) => match kind {
+            Kind::Node => pm.persist_delete_node(tenant, id),
+            Kind::Edge => pm.persist_delete_edge(tenant, id),
+        },
+    }
+}
+
 fn create(pm: &PersistenceManager, tenant: &str, kind: Kind, id: u64) -> Result<(), PersistenceError> {
     match kind {
         Kind::Node => {
@@ -168,7 +194,7 @@ fn run_once(
     pm: &Arc<PersistenceManager>,
     tenant: &str,
     kind: Kind,
-    targets: &[u64],
+    targets: &[W],
     pre: usize,
     choose: &mut dyn FnMut(&[usize]) -> usize,
 ) -> Run {
@@ -186,7 +212,7 @@ fn run_once(
         handles.push(std::thread::spawn(move || {
             TID.with(|t| t.set(Some(i)));
             sched.park(i, "start");
-            let r = std::panic::catch_unwind(std::panic::AssertUnwindSafe(|| create(&pm, &tenant, kind, id)));
+            let r = std::panic::catch_unwind(std::panic::AssertUnwindSafe(|| perform(&pm, &tenant, kind, id)));
             let r = match r {
                 Ok(Ok(())) => Ok(()),
                 Ok(Err(PersistenceError::Tenant(TenantError::QuotaExceeded { .. }))) => Err("quota".to_string()),
@@ -272,9 +298,9 @@ fn quotas(q: Option<u64>) -> ResourceQuotas {
 }
 
 /// the property's own predicate on what the implementation did
-fn predicate(q: Option<u64>, targets: &[u64], r: &Run, kind: Kind) -> Option<String> {
+fn predicate(q: Option<u64>, targets: &[W], r: &Run, kind: Kind) -> Option<String> {
     if !r.errors.is_empty() {
-        return Some(format!("a creation failed with something other than QuotaExceeded: {:?}", r.errors));
+        return Some(format!("a call failed with something other than QuotaExceeded: {:?}", r.errors));
     }
     if let Some(q) = q {
         for (k, (w, _u, c)) in r.sched.iter().enumerate() {
@@ -286,19 +312,35 @@ fn predicate(q: Option<u64>, targets: &[u64], r: &Run, kind: Kind) -> Option<Str
             return Some(format!("{} entities persisted at the end, quota {}", r.scanned.len(), q));
         }
     }
-    // a refused creation leaves nothing behind
     for (i, res) in r.results.iter().enumerate() {
+        let id = targets[i].id();
+        let deleted_by_someone = targets.iter().any(|w| *w == W::D(id));
+        if !targets[i].is_create() {
+            if *res != Res::Accepted {
+                return Some(format!("writer {} (a delete) was not acknowledged", i));
+            }
+            continue;
+        }
+        // a refused creation leaves nothing behind
         if *res == Res::Refused {
-            let by_other = (0..targets.len()).any(|j| j != i && targets[j] == targets[i] && r.results[j] == Res::Accepted);
-            if r.scanned.contains(&targets[i]) && !by_other {
-                return Some(format!("writer {} was refused but its entity {} is persisted", i, targets[i]));
+            let by_other = (0..targets.len()).any(|j| j != i && targets[j] == W::C(id) && r.results[j] == Res::Accepted);
+            if r.scanned.contains(&id) && !by_other {
+                return Some(format!("writer {} was refused but its entity {} is persisted", i, id));
             }
         }
-        if *res == Res::Accepted && !r.scanned.contains(&targets[i]) {
-            return Some(format!("writer {} was accepted but its entity {} is not persisted", i, targets[i]));
+        if *res == Res::Accepted && !r.scanned.contains(&id) && !deleted_by_someone {
+            return Some(format!("writer {} was accepted but its entity {} is not persisted", i, id));
+        }
+    }
+    // nothing is persisted that no writer created
+    for id in &r.scanned {
+        if !targets.contains(&W::C(*id)) {
+            return Some(format!("entity {} is persisted but no writer created it", id));
         }
     }
     let cnt = r.scanned.len() as u64;
+    // usage = persisted count after every step in which no creation is in flight is implied by the
+    // model comparison; here: at quiescence and after recovery
     if r.usage.0 != cnt {
         return Some(format!("at quiescence usage is {} but {} entities are persisted", r.usage.0, cnt));
     }
@@ -315,6 +357,13 @@ fn predicate(q: Option<u64>, targets: &[u64], r: &Run, kind: Kind) -> Option<Str
     None
 }
 
+fn g_w(w: &W) -> String {
+    match w {
+        W::C(i) => format!("(Creator, {})", i),
+        W::D(i) => format!("(Deleter, {})", i),
+    }
+}
+
 fn g_res(r: &Res) -> String {
     match r {
         Res::Accepted => "(Some Accepted)".to_string(),
@@ -329,7 +378,7 @@ fn one_case(
     cx: &mut Ctx,
     kind: Kind,
     q: Option<u64>,
-    targets: &[u64],
+    targets: &[W],
     pre: usize,
     choose: &mut dyn FnMut(&[usize]) -> usize,
     label: &str,
@@ -384,11 +433,24 @@ fn one_case(
     if overlapped {
         out.count("two_writers_in_flight");
     }
-    let mut ts = targets.to_vec();
+    let mut ts: Vec<u64> = targets.iter().map(|w| w.id()).collect();
     ts.sort();
     ts.dedup();
     if ts.len() < targets.len() {
         out.count("colliding_ids");
+    }
+    if targets.iter().any(|w| !w.is_create()) {
+        out.count("with_deletes");
+        // a delete and a creation of the same id both past their first step and before their last
+        let hit = targets.iter().enumerate().any(|(i, w)| {
+            !w.is_create() && i >= pre && targets.iter().enumerate().any(|(j, v)| j >= pre && *v == W::C(w.id()))
+        });
+        if hit {
+            out.count("delete_races_create_same_id");
+        }
+        if targets.iter().any(|w| !w.is_create() && !targets.contains(&W::C(w.id()))) {
+            out.count("delete_of_absent_id");
+        }
     }
     if kind == Kind::Edge {
         out.count("edge_cases");
@@ -397,9 +459,14 @@ fn one_case(
         out.count("three_writers");
     }
     // the hook points each accepted writer passed must be the documented ones, in order
-    let pfx = if kind == Kind::Node { "pm.create_node." } else { "pm.create_edge." };
     let mut hook_bad = None;
     for (i, h) in r.hooks.iter().enumerate() {
+        let pfx = match (kind, targets[i].is_create()) {
+            (Kind::Node, true) => "pm.create_node.",
+            (Kind::Edge, true) => "pm.create_edge.",
+            (Kind::Node, false) => "pm.delete_node.",
+            (Kind::Edge, false) => "pm.delete_edge.",
+        };
         let want: Vec<String> = if r.results[i] == Res::Accepted {
             vec!["start".to_string(), format!("{}after_quota", pfx), format!("{}after_wal", pfx), format!("{}after_storage", pfx)]
         } else {
@@ -413,7 +480,7 @@ fn one_case(
     let g = format!(
         "({}, {}, {}, {}, {}, ({}, {}, {}))",
         g_opt(q.map(g_n)),
-        g_list(targets.iter().map(|t| g_n(*t))),
+        g_list(targets.iter().map(g_w)),
         g_list(r.sched.iter().map(|(w, u, c)| format!("({}, ({}, {}))", w, u, c))),
         g_list(r.results.iter().map(g_res)),
         g_list(r.scanned.iter().map(|t| g_n(*t))),
@@ -431,7 +498,7 @@ fn one_case(
 }
 
 /// every interleaving (depth-first over the choice points), or the first `limit` of them
-fn enumerate(out: &mut Out, cx: &mut Ctx, kind: Kind, q: Option<u64>, targets: &[u64], pre: usize, limit: usize, label: &str) -> usize {
+fn enumerate(out: &mut Out, cx: &mut Ctx, kind: Kind, q: Option<u64>, targets: &[W], pre: usize, limit: usize, label: &str) -> usize {
     let mut prefix: Vec<usize> = Vec::new();
     let mut count = 0;
     loop {
@@ -468,11 +535,12 @@ fn main() {
     quiet_panics();
     install_hook();
     let mut out = Out::new(&args, "From Verif Require Import Tenant.", "Tenant.case", "Tenant.check_case", 600);
-    out.rule = "exhaustive: every interleaving, at the pm.create_*.{after_quota,after_wal,after_storage} hook points, \
-                of 2 writers (quick and thorough) and of 3 writers (thorough; quick takes a random sample) creating \
-                nodes or relationships for one tenant with quota 1 and 2 (and 3, unlimited in samples), with 0-1 \
-                entities created beforehand, with distinct ids and with ids that collide with each other or with an \
-                existing entity; usage and the scan observed after every step, then results, scan, and usage after \
+    out.rule = "exhaustive: every interleaving, at the pm.{create,delete}_*.{after_quota,after_wal,after_storage} hook \
+                points, of 2 writers (quick and thorough) and of 3 writers (thorough; quick takes a random sample) \
+                creating or deleting nodes or relationships for one tenant with quota 1 and 2 (and 3, unlimited in \
+                samples), with 0-1 entities created beforehand, with distinct ids and with ids that collide with \
+                each other or with an existing entity (create/create, create/delete, delete/delete, deletes of \
+                absent ids); usage and the scan observed after every step, then results, scan, and usage after \
                 0/1/2 recoveries on the same manager; the directory is reopened every 64 cases. Distinct by case text."
         .to_string();
     let base = if std::path::Path::new("/dev/shm").is_dir() { std::path::PathBuf::from("/dev/shm") } else { std::env::temp_dir() };
@@ -480,34 +548,54 @@ fn main() {
     let pm = Arc::new(PersistenceManager::new(dir.path()).expect("open"));
     let mut cx = Ctx { pm: Some(pm), dir, serial: 0 };
 
+    use W::{C, D};
     // ---- 2 writers, every interleaving ----
     let mut total2 = 0;
+    let mut total2d = 0;
     for kind in [Kind::Node, Kind::Edge] {
         for q in [1u64, 2] {
             // distinct ids, nothing there before / one entity there before
-            total2 += enumerate(&mut out, &mut cx, kind, Some(q), &[1, 2], 0, usize::MAX, "2w");
-            total2 += enumerate(&mut out, &mut cx, kind, Some(q), &[9, 1, 2], 1, usize::MAX, "2w+pre");
+            total2 += enumerate(&mut out, &mut cx, kind, Some(q), &[C(1), C(2)], 0, usize::MAX, "2w");
+            total2 += enumerate(&mut out, &mut cx, kind, Some(q), &[C(9), C(1), C(2)], 1, usize::MAX, "2w+pre");
             // both writers create the same id
-            total2 += enumerate(&mut out, &mut cx, kind, Some(q), &[1, 1], 0, usize::MAX, "2w-same-id");
+            total2 += enumerate(&mut out, &mut cx, kind, Some(q), &[C(1), C(1)], 0, usize::MAX, "2w-same-id");
             // one writer re-creates the entity that is already there
-            total2 += enumerate(&mut out, &mut cx, kind, Some(q), &[1, 1, 2], 1, usize::MAX, "2w-overwrite");
+            total2 += enumerate(&mut out, &mut cx, kind, Some(q), &[C(1), C(1), C(2)], 1, usize::MAX, "2w-overwrite");
+            // ---- creates mixed with deletes ----
+            // a delete of the existing entity races a creation of another one (frees a unit or not in time)
+            total2d += enumerate(&mut out, &mut cx, kind, Some(q), &[C(1), D(1), C(2)], 1, usize::MAX, "cd-free-unit");
+            // a delete races a re-creation (overwrite) of the same, existing id
+            total2d += enumerate(&mut out, &mut cx, kind, Some(q), &[C(1), D(1), C(1)], 1, usize::MAX, "cd-same-id-existing");
+            // a delete races the first creation of the same id
+            total2d += enumerate(&mut out, &mut cx, kind, Some(q), &[C(1), D(1)], 0, usize::MAX, "cd-same-id-new");
+            // a delete of an id that is not there races a creation
+            total2d += enumerate(&mut out, &mut cx, kind, Some(q), &[C(1), D(7), C(2)], 1, usize::MAX, "cd-absent");
+            // two deletes of the same existing entity; a delete of an absent and of a present id
+            total2d += enumerate(&mut out, &mut cx, kind, Some(q), &[C(1), D(1), D(1)], 1, usize::MAX, "dd-same-id");
+            total2d += enumerate(&mut out, &mut cx, kind, Some(q), &[C(1), D(7), D(1)], 1, usize::MAX, "dd-absent-present");
         }
-        total2 += enumerate(&mut out, &mut cx, kind, Some(3), &[1, 1, 2], 1, usize::MAX, "2w-overwrite");
-        total2 += enumerate(&mut out, &mut cx, kind, None, &[1, 2], 0, usize::MAX, "2w-unlimited");
+        total2 += enumerate(&mut out, &mut cx, kind, Some(3), &[C(1), C(1), C(2)], 1, usize::MAX, "2w-overwrite");
+        total2 += enumerate(&mut out, &mut cx, kind, None, &[C(1), C(2)], 0, usize::MAX, "2w-unlimited");
     }
+    // the two sequential witnesses of the delete accounting, every run
+    total2d += enumerate(&mut out, &mut cx, Kind::Node, Some(2), &[C(1), D(7)], 2, usize::MAX, "seq-create-delete-absent");
+    total2d += enumerate(&mut out, &mut cx, Kind::Node, Some(2), &[C(1), D(1), D(1), C(2), C(3)], 5, usize::MAX, "seq-double-delete");
     out.count_n("two_writer_schedules", total2 as u64);
+    out.count_n("two_writer_schedules_with_deletes", total2d as u64);
 
     // ---- 3 writers ----
     let mut total3 = 0;
     if args.thorough {
         for q in [1u64, 2] {
-            total3 += enumerate(&mut out, &mut cx, Kind::Node, Some(q), &[1, 2, 3], 0, usize::MAX, "3w");
+            total3 += enumerate(&mut out, &mut cx, Kind::Node, Some(q), &[C(1), C(2), C(3)], 0, usize::MAX, "3w");
+            total3 += enumerate(&mut out, &mut cx, Kind::Node, Some(q), &[C(1), D(1), C(1), C(2)], 1, 8000, "3w-cd");
         }
-        total3 += enumerate(&mut out, &mut cx, Kind::Edge, Some(2), &[1, 2, 3], 0, 6000, "3w");
-        total3 += enumerate(&mut out, &mut cx, Kind::Node, Some(2), &[1, 1, 2], 0, 6000, "3w-same-id");
+        total3 += enumerate(&mut out, &mut cx, Kind::Edge, Some(2), &[C(1), C(2), C(3)], 0, 6000, "3w");
+        total3 += enumerate(&mut out, &mut cx, Kind::Node, Some(2), &[C(1), C(1), C(2)], 0, 6000, "3w-same-id");
     }
     out.count_n("three_writer_schedules_enumerated", total3 as u64);
-    // random schedules of 3 writers (distinct and colliding ids, quota 1-3, 0-2 entities beforehand)
+    // random schedules of 3 writers (creates and deletes, distinct and colliding ids, quota 1-3,
+    // 0-2 entities created beforehand)
     let n = if args.thorough { 6000 } else { 500 };
     for c in 0..n {
         let mut r = Rng::for_case(args.seed, c);
@@ -520,9 +608,11 @@ fn main() {
         };
         let pre = r.below(3) as usize;
         let collide = r.chance(1, 3);
-        let mut targets: Vec<u64> = Vec::new();
+        let deletes = r.chance(1, 2);
+        let mut targets: Vec<W> = Vec::new();
         for i in 0..(pre + 3) {
-            targets.push(if collide { r.range(1, 3) } else { (i + 1) as u64 });
+            let id = if collide || (deletes && i >= pre) { r.range(1, 3) } else { (i + 1) as u64 };
+            targets.push(if deletes && i >= pre && r.chance(2, 5) { D(id) } else { C(id) });
         }
         let mut rr = r.clone();
         let mut choose = |en: &[usize]| -> usize { rr.below(en.len() as u64) as usize };
